@@ -41,7 +41,7 @@ theorem C17_deny (env : Env) (name : String) (hflag : env.allowAll = false) (hli
     (∀ pre rest, (execImport env pre σ).err = none →
         execImport env (pre ++ ⟨name, asn⟩ :: rest) σ =
           { binds := (execImport env pre σ).binds, err := some .notAllowed }) ∧
-    (isStubs name = false → ∀ names, execImportFrom env (some name) false names σ = { binds := σ, err := some .notAllowed }) := by
+    (isStubs name = false → ∀ names, execImportFrom env (some name) 0 names σ = { binds := σ, err := some .notAllowed }) := by
   have hres : resolve env name = .error .notAllowed := by
     rw [resolve_spec]
     have : ¬ ((pysLookup env name).isSome = true ∨ name ∈ Gen.ALLOWED_IMPORTS ∨ env.allowAll = true) := by
@@ -53,7 +53,7 @@ theorem C17_deny (env : Env) (name : String) (hflag : env.allowAll = false) (hli
   · intro pre rest hpre
     rw [execImport_append, if_pos hpre, h1]
   · intro hs names
-    simp [execImportFrom, hs, hres]
+    simp [execImportFrom, findFrom, hs, hres]
 
 /-- **Allow.**  A visible pyscript module wins whatever the flag, the allow-list or the host say (the lookup
 precedes the check); otherwise an allow-listed name, or any name under `allow_all_imports`, binds the host's module
@@ -62,7 +62,7 @@ theorem C17_allow (env : Env) (name : String) (m : ModInfo) (asn : Option String
     (h : pysLookup env name = some m ∨
          (pysLookup env name = none ∧ (name ∈ Gen.ALLOWED_IMPORTS ∨ env.allowAll = true) ∧ env.host name = some m)) :
     execImport env [⟨name, asn⟩] σ = { binds := σ ++ [(asn.getD name, .mod m.id)], err := none } ∧
-    (isStubs name = false → ∀ names, execImportFrom env (some name) false names σ = bindFrom m names σ) := by
+    (isStubs name = false → ∀ names, execImportFrom env (some name) 0 names σ = bindFrom m names σ) := by
   have hres : resolve env name = .ok m := by
     rw [resolve_spec]
     rcases h with h | ⟨h1, h2, h3⟩
@@ -71,7 +71,7 @@ theorem C17_allow (env : Env) (name : String) (m : ModInfo) (asn : Option String
   constructor
   · simp [execImport, hres, Alias.key]
   · intro hs names
-    simp [execImportFrom, hs, hres]
+    simp [execImportFrom, findFrom, hs, hres]
 
 /-- what a permitted from-import binds: only attributes of that module, a `*` never a name starting with `_`, and
 older bindings are kept -/
@@ -106,17 +106,69 @@ theorem C17_no_prefix (env : Env) (hflag : env.allowAll = false) (a s : String) 
 
 /-- **`from stubs… import` is ignored** – in every environment, relative or not: nothing is bound, nothing is looked
 up; only the `as` form is rejected. -/
-theorem C17_stubs_ignored (env : Env) (mname : String) (hs : isStubs mname = true) (rel : Bool) (names : List Alias)
+theorem C17_stubs_ignored (env : Env) (mname : String) (hs : isStubs mname = true) (level : Nat) (names : List Alias)
     (σ : Bindings) :
-    execImportFrom env (some mname) rel names σ =
+    execImportFrom env (some mname) level names σ =
       if names.any (fun a => a.asname.isSome) then { binds := σ, err := some .stubsAs } else { binds := σ, err := none } := by
   simp [execImportFrom, hs]
 
-/-- **Same verdicts through `exec`**, at any nesting depth: the statement inside behaves as if written directly. -/
+/-- **Relative imports stay inside the package, or obey the allow test.**  For `from .…m import …` with one or more
+leading dots exactly one of four things happens: the module is a file below the importing package and its names are
+bound; the context has no parent package (ImportError); the dots climb out of the package (ImportError); or no such
+file exists and the BARE name `m` is treated like an absolute import – allow test first, then the host. -/
+theorem C17_relative (env : Env) (mname : String) (level : Nat) (hl : level ≠ 0) (hs : isStubs mname = false)
+    (names : List Alias) (σ : Bindings) :
+    execImportFrom env (some mname) level names σ =
+      match relLookup env level mname with
+      | .found m => bindFrom m names σ
+      | .noParent => { binds := σ, err := some .relNoParent }
+      | .above => { binds := σ, err := some .relAbove }
+      | .missing =>
+        match hostImport env mname with
+        | .ok m => bindFrom m names σ
+        | .error e => { binds := σ, err := some e } := by
+  simp only [execImportFrom, hs, Bool.false_eq_true, if_false, findFrom, hl]
+  cases relLookup env level mname <;> simp only []
+  cases hostImport env mname <;> rfl
+
+/-- hence a relative from-import of a name that is neither allow-listed nor found below the package binds nothing
+and fails, whatever the host has – in particular the host is never asked -/
+theorem C17_relative_deny (env : Env) (mname : String) (level : Nat) (hl : level ≠ 0) (hs : isStubs mname = false)
+    (hflag : env.allowAll = false) (hlist : mname ∉ Gen.ALLOWED_IMPORTS)
+    (hnf : ∀ m, relLookup env level mname ≠ .found m) (names : List Alias) (σ : Bindings) :
+    (execImportFrom env (some mname) level names σ).binds = σ ∧
+    ((execImportFrom env (some mname) level names σ).err = some .relNoParent ∨
+     (execImportFrom env (some mname) level names σ).err = some .relAbove ∨
+     (execImportFrom env (some mname) level names σ).err = some .notAllowed) := by
+  rw [C17_relative env mname level hl hs]
+  cases h : relLookup env level mname with
+  | found m => exact absurd h (hnf m)
+  | noParent => simp
+  | above => simp
+  | missing =>
+    have : hostImport env mname = .error .notAllowed := by
+      simp [hostImport, hflag, allowListed_false mname hlist]
+    simp [this]
+
+/-- a module found by a relative import is one of the files below the pyscript folder -/
+theorem C17_relative_found_is_file (env : Env) (level : Nat) (name : String) (m : ModInfo)
+    (h : relLookup env level name = .found m) : ∃ p, lookupFile env.files p = some m := by
+  unfold relLookup at h
+  split at h
+  · cases h
+  · split at h
+    · cases h
+    · split at h
+      · next hf => cases h; exact firstFile_some _ _ _ hf
+      · cases h
+
+/-- **Same verdicts through `exec`**, at any nesting depth, and inside a function, a class body, a `try` or
+`eval("exec(…)")`: the statement inside behaves as if written directly. -/
 theorem C17_eval_exec (env : Env) (p : Prog) (σ : Bindings) : run env p σ = execStmt env p.inner σ := by
   induction p with
   | stmt s => rfl
   | exec p ih => simpa [run, Prog.inner] using ih
+  | within w p ih => simpa [run, Prog.inner] using ih
 
 /-- **Excluded builtins are never the host's.**  For every name in `BUILTIN_EXCLUDE`, and every name starting with
 `_` (`__import__`, `__builtins__`, …), plain-name lookup never yields the host builtin, whatever else is defined. -/
@@ -160,11 +212,11 @@ example : "__no_such_module__" ∉ Gen.ALLOWED_IMPORTS := by decide
 /-- a refusal, a pyscript module shadowing a refused host module, and an allow-listed import, on concrete input -/
 example :
     let host : String → Option ModInfo := fun n => some { id := "host:" ++ n, attrs := ["pi", "_x"] }
-    let env0 : Env := { allowAll := false, relPath := none, files := [], host := host }
+    let env0 : Env := { allowAll := false, relPath := none, ctxName := "file.t", files := [], host := host }
     let env1 : Env := { env0 with files := [("modules/os.py", { id := "pys:os", attrs := ["x"] })] }
     execImport env0 [⟨"os", none⟩] [] = { binds := [], err := some .notAllowed } ∧
     execImport env1 [⟨"os", some "o"⟩] [] = { binds := [("o", .mod "pys:os")], err := none } ∧
-    execImportFrom env0 (some "math") false [⟨"*", none⟩] [] = { binds := [("pi", .attr "host:math" "pi")], err := none } := by
+    execImportFrom env0 (some "math") 0 [⟨"*", none⟩] [] = { binds := [("pi", .attr "host:math" "pi")], err := none } := by
   decide
 
 /-- a name that the enclosing function declares `global` is looked up in the global symbol table only: it can never be
